@@ -160,6 +160,21 @@ CLAIMED.update({
         ref="DESIGN.md 3/C09"),
 })
 
+CLAIMED.update({
+    "C12": dict(
+        text="Modular proof on the real Google / Numpy / Sphinx parsers under the Docstring invariant (last line not blank unless the docstring is one empty line): "
+             "leaf block readers (every lines[e] in bounds, skip / item / continuation loops with invariants and strictly decreasing variants, returned offset >= "
+             "offset - 1, every item has a first line), all 12 + 13 + 7 section / field readers against the leaf contracts (one generic item iteration from an arbitrary "
+             "accumulated state; no exception escapes for any option valuation and any parent), the three main loops against the reader contracts (offset strictly "
+             "increases: termination; readers called within protocol), the two dispatch tables total, docstring_warning / parse_docstring_annotation never raise, "
+             "Docstring.parse / parsers.parse reach a contracted parser for every Parser member; docstring and parent never written. "
+             "The plain-text clause and section well-formedness are a bounded native corpus.",
+        note="The parent is None or a model object of unknown class whose reads may raise per the listed policy; regex outcomes are abstract except group optionality "
+             "(derived from the real patterns); compile() may raise SyntaxError / ValueError; RecursionError / MemoryError not modelled. "
+             "Fixed: C12-F0..F4; known: C12-F5 (alias resolution errors from parent reads escape).",
+        ref="DESIGN.md 3/C12"),
+})
+
 NA_REASON = {
     "C17": "relates two whole-program analyses through CPython's run-time object model; a contract for the inspector would have to assume the very "
            "object model the property compares against, so no obligation over /repo code alone implies agreement (DESIGN.md section 4)",
